@@ -673,7 +673,18 @@ def run_async_iter(inp):
 
 
 # ---- op 8: real loopback sockets
-def run_real_recv(inp):
+def run_real_recv(inp, force=False):
+    import time as _t0
+    import realio as _r
+    if not force and _r.skip_now():
+        return [[45]]
+    t0 = _t0.monotonic()
+    out = _run_real_recv(inp)
+    _r.note_duration(_t0.monotonic() - t0, not any(o and o[0] in (1, 8, 41) for o in out))
+    return out
+
+
+def _run_real_recv(inp):
     import fcntl
     import struct
     import termios
@@ -697,7 +708,7 @@ def run_real_recv(inp):
         class TLSWriter(realio.Writer):
             def run(self):
                 try:
-                    self.sock.settimeout(300.0)
+                    self.sock.settimeout(realio.limit(2.0))
                     self.sock = sctx.wrap_socket(self.sock, server_side=True)
                     pos = 0
                     for k in self.pieces:
@@ -714,7 +725,7 @@ def run_real_recv(inp):
         writer = TLSWriter(b, stream, pieces)
         writer.start()
         transport = SSLStreamTransport(a, tlskit.client_ctx(ver), 1.0, server_hostname="localhost", server_side=False,
-                                       handshake_timeout=300.0, shutdown_timeout=1.0, standard_compatible=False)
+                                       handshake_timeout=realio.limit(), shutdown_timeout=1.0, standard_compatible=False)
         target = StreamEndpoint(transport, proto, max_recv_size=bufsize)
         peer = b
     else:
@@ -724,8 +735,8 @@ def run_real_recv(inp):
         target = TCPNetworkClient(sock, proto, max_recv_size=bufsize, retry_interval=1.0)
         if T == 0:
             # a zero timeout is only deterministic once everything has arrived: wait for the kernel to hold it all
-            writer.join(300.0)
-            deadline = _time.monotonic() + 300.0
+            writer.join(realio.limit(2.0))
+            deadline = _time.monotonic() + realio.limit()
             while _time.monotonic() < deadline:
                 avail = struct.unpack("i", fcntl.ioctl(sock.fileno(), termios.FIONREAD, b"\0\0\0\0"))[0]
                 if avail >= len(stream):
@@ -734,12 +745,12 @@ def run_real_recv(inp):
             import select as _select
             po = _select.poll()                 # ... and until the peer's FIN has been received (POLLRDHUP)
             po.register(sock.fileno(), _select.POLLRDHUP)
-            deadline = _time.monotonic() + 300.0
+            deadline = _time.monotonic() + realio.limit()
             while _time.monotonic() < deadline:
                 if any(ev & _select.POLLRDHUP for _fd, ev in po.poll(50)):
                     break
     try:
-        timeout = 600.0 if T is None else 0.0
+        timeout = realio.limit() if T is None else 0.0
         if mode == 1:
             it = target.iter_received_packets(timeout=None if T is None else 0.0)
             fn = lambda: next(it)  # noqa: E731
@@ -747,7 +758,7 @@ def run_real_recv(inp):
             fn = lambda: target.recv_packet(timeout=timeout)  # noqa: E731
         for _ in range(ncalls):
             try:
-                with iosim.alarm(700.0):
+                with iosim.alarm(realio.limit(2.5)):
                     pkt = fn()
                 out.append([0, realio.digest(bytes(pkt))])
             except StopIteration as exc:
@@ -758,7 +769,7 @@ def run_real_recv(inp):
                 out.append([iosim.exc_code(exc)])
     finally:
         target.close()
-        writer.join(300.0)
+        writer.join(realio.limit(2.0))
         try:
             peer.close()
         except Exception:
@@ -787,6 +798,19 @@ def run_impl(inp):
 _budget_failure = iosim.budget_failure
 
 
+def _class_failure(code, T, what):
+    """A timed call may end with its value, TimeoutError, a connection error / end-of-stream / closed client; ValueError only
+    for a negative timeout.  Anything else leaving the call is a failure (e.g. ValueError('negative delay') from a budget
+    that went below zero)."""
+    if code in (0, 1, 2, 5, 6):
+        return None
+    if code == 3 and T is not None and T < 0:
+        return None
+    if code == 4 and T is None:
+        return None        # documented RuntimeError: select() without timeout returned nothing (scripted impossibility)
+    return f"{what}: unexpected exception class (code {code}) leaves a timed call (timeout {'None' if T is None else T})"
+
+
 def _lock_failure(after, what):
     send_free, recv_free, other_waits = after
     if other_waits:
@@ -799,7 +823,7 @@ def _lock_failure(after, what):
 
 def oracle(inp):
     op = inp[0]
-    out = run_impl(inp)
+    out = run_real_recv(inp, force=True) if op == 8 else run_impl(inp)
     if op == 0:
         _, T, ri, cbs, sels = inp[:5]
         T = iosim.sx_tmo(T)
@@ -825,6 +849,10 @@ def oracle(inp):
             _, ri, n, bufsize, T, lockans, rscript, sels = inp[:8]
             lks = [_lock_of(l) for l in lockans]
             Ts = None
+        all_waits = [w for call in out for w in call[1]]
+        f = iosim.event_failure(all_waits, [1 if a[0] == 3 else 0 for a in rscript if a[0] in (1, 2, 3)], "recv_packet")
+        if f:
+            return f
         used_sel = 0
         T_left = iosim.sx_tmo(inp[4]) if op == 2 else None
         for i, call in enumerate(out):
@@ -835,6 +863,9 @@ def oracle(inp):
             if outcome[0] in (8, 9):
                 return "receive does not terminate"
             T = Ts[i] if Ts is not None else T_left
+            f = _class_failure(outcome[0], T, f"call {i}")
+            if f:
+                return f
             f = _budget_failure(T, waits, lockwaits, sels[used_sel:], lks[i], outcome[0], f"call {i}", dt)
             if f:
                 return f
@@ -853,10 +884,16 @@ def oracle(inp):
         f = _lock_failure(after, "send_packet")
         if f:
             return f
+        f = iosim.event_failure(waits, [1 for a in sscript if a[0] in (1, 2)], "send_packet")
+        if f:
+            return f
         if code in (8, 9):
             return "send_packet does not terminate"
         if code == 0 and wire != want:
             return "send_packet returned without writing the packet"
+        f = _class_failure(code, T, "send_packet")
+        if f:
+            return f
         return _budget_failure(T, waits, lockwaits, sels, _lock_of(lk), code, "send_packet", dt)
     if op == 9:
         import c11_threads
@@ -869,6 +906,9 @@ def oracle(inp):
                         f"its own lock is free (it waits on the other lock)")
             if st == [2] and T == 0 and m != 2:
                 return f"lock discipline: call {k} with a zero timeout is blocked on a lock"
+        for r, name, owner in c11_threads.run.last_leaks:
+            return (f"lock discipline: call {r} is blocked on the {name} lock, which is still held although the call that took it "
+                    f"(call {owner}) has ended: the lock was never released")
         if all(st[0] == 0 for _, st in final) and not (send_free and recv_free):
             return (f"lock discipline: every call has ended but send lock free={send_free}, receive lock free={recv_free} "
                     f"(a lock acquired by lock_with_timeout was not released)")
@@ -934,6 +974,9 @@ def oracle(inp):
             return f
         if outcome[0] in (8, 9):
             return "recv_packet does not terminate"
+        f = _class_failure(outcome[0], iosim.sx_tmo(T), "udp recv_packet")
+        if f:
+            return f
         return _budget_failure(iosim.sx_tmo(T), waits, lockwaits, sels, _lock_of(lk), outcome[0], "udp recv_packet", dt)
     return None
 
